@@ -24,7 +24,15 @@ def conv(tok):
     return CLASS_CHAR[tok]
 
 
-def transition_texts(dot_path):
+F_CLASS_CHAR = {"L": "a", "O": "1", "S": " ", "!": "!", "&": "&", "Q": '"', "q": "'", "$": "$", "#": "#"}
+# completions for free-form Fortran: close an open literal / finish a continued statement, then reveal the
+# scanner state on the following lines (comment line inside a continuation, leading &, directive)
+F_SUFFIXES = ["", "'", '"', " x", "\nx = 1", "'\nx = 1", '"\nx = 1', "&\n&'\nx = 1", '&\n&"\nx = 1',
+              "\n& x\ny = 2", "x\n! c\nx = 2", " &\n ! c\n & y\nz = 3", "\n#define X\n& y\nz = 3",
+              "'//\"!&\" ! c\nx = 1", " x &\n!$omp p\n"]
+
+
+def transition_texts(dot_path, class_char=None, suffixes=None, splice_action="Splice", nl_action="NL"):
     """
     One family of texts per TRANSITION of the product graph: the input history of the source
     state (recorded in the dumped state), the transition's own input, and a set of completions.
@@ -46,17 +54,18 @@ def transition_texts(dot_path):
     for src, label in edges:
         if src not in hist:
             continue
-        base = "".join(conv(t) for t in hist[src])
+        cc = class_char or CLASS_CHAR
+        base = "".join(conv(t) if t in (SPLICE, NEWLINE) else cc[t] for t in hist[src])
         if label.startswith("Feed"):
             c = TOK.search(label).group(1)
-            ev = CLASS_CHAR[c]
-        elif label.startswith("Splice"):
+            ev = cc[c]
+        elif label.startswith(splice_action):
             ev = "\\\n"
-        elif label.startswith("NL"):
+        elif label.startswith(nl_action):
             ev = "\n"
         else:
             continue
         ntr += 1
-        for suf in SUFFIXES:
+        for suf in (suffixes or SUFFIXES):
             texts.add(base + ev + suf + "\n")
     return sorted(texts), ntr
